@@ -1,7 +1,7 @@
 //! Scripted UCI sessions against the real binary + the sequential session model (C14) that is
 //! replayed over the recorded history. Other monitors (C06, C07, C10, C13, C18, C19) reuse the
 //! per-`go` records this runner produces.
-use crate::m_search::Root;
+use crate::roots::Root;
 use crate::uci::{engine_bin, Kind, Session};
 use serde_json::{json, Value};
 use std::path::PathBuf;
